@@ -3,14 +3,14 @@
 # tools/rig.sh run <cmd...>    run a command with PP_REPO / PP_VERIF pointing at the rig
 # The rig lives in /tmp/rig (scratch; nothing registered in MANIFEST.json uses it).
 set -e
-RIG=/tmp/rig
+RIG=${RIG:-/tmp/rig}
 case "$1" in
   sync)
     mkdir -p $RIG
     if [ ! -d $RIG/repo ]; then git -C /repo worktree add -q --detach $RIG/repo HEAD; fi
     git -C $RIG/repo checkout -q --detach $(git -C /repo rev-parse HEAD); git -C $RIG/repo checkout -- . ; git -C $RIG/repo clean -fdq
     rsync -a --delete --exclude replays --exclude work/.lock /verif/ $RIG/verif/
-    sed -i 's#path = "/repo"#path = "/tmp/rig/repo"#' $RIG/verif/rust/harness/Cargo.toml
+    sed -i "s#path = \"/repo\"#path = \"$RIG/repo\"#" $RIG/verif/rust/harness/Cargo.toml
     ;;
   run)
     shift
